@@ -47,8 +47,10 @@ Definition phred_round (m : Q) (n : Z) : bool :=
    else 10000 *)
 Definition gq_rule (mass : Q) (gq : Z) : bool :=
   if Qlt_le_dec 0 mass then
-    (phred_round mass gq && (gq <=? 10000)%Z) ||
-    ((gq =? 10000)%Z && Qle_bool (mass ^ 20) (pow10 (- (2 * 10000 - 1))))
+    if (gq =? 10000)%Z then
+      (* round(..) >= 10000 (either neighbour at the tie) *)
+      Qle_bool (mass ^ 20) (pow10 (- (2 * 10000 - 1)))
+    else if (gq <? 10000)%Z then phred_round mass gq else false
   else (gq =? 10000)%Z.
 (* the same allowing for a relative perturbation eps of the mass (the implementation sums doubles and
    takes a floating point logarithm: next to a rounding boundary either neighbour is acceptable) *)
